@@ -20,3 +20,42 @@ def _type(*a):
 
 
 core._PATCH_REGISTRATIONS[type] = _type
+
+
+# CrossHair's patch of the builtin getattr() performs the lookup under NoTracing(), so a property
+# getter reached through getattr(inst, name) (pyxtuml: derived attributes and referential attributes
+# are properties, the interpreter reads attributes with getattr) would run untraced and fail on
+# symbolic values.  For pyxtuml instances the lookup is done with tracing left on.
+from crosshair.libimpl import builtinslib as _bl
+
+_MISSING = object()
+_orig_getattr_patch = core._PATCH_REGISTRATIONS.get(getattr)
+
+
+def _getattr(obj, name, default=_MISSING):
+    with NoTracing():
+        special = False
+        try:
+            import xtuml.meta as _xm
+            special = isinstance(obj, _xm.Class)
+        except Exception:  # noqa
+            special = False
+        if special and isinstance(name, _bl.AnySymbolicStr):
+            name = realize(name)
+    if not special:
+        if default is _MISSING:
+            return _orig_getattr_patch(obj, name)
+        return _orig_getattr_patch(obj, name, default)
+    try:
+        try:
+            return type(obj).__getattribute__(obj, name)
+        except AttributeError:
+            return type(obj).__getattr__(obj, name)
+    except AttributeError:
+        if default is _MISSING:
+            raise
+        return default
+
+
+if _orig_getattr_patch is not None:
+    core._PATCH_REGISTRATIONS[getattr] = _getattr
